@@ -155,8 +155,8 @@ type script struct {
 	Dim      int     `json:"dim"` // 3: triangles, 2: segments
 	Sink     string  `json:"sink"`
 	Batches  [][]int `json:"batches"`
-	Yield    []int   `json:"yield"`     // producer p yields the processor after every Yield[p]-th write (0: never)
-	NilEmpty bool    `json:"nil_empty"` // empty batches are nil slices (as mcToTriangles returns) rather than empty ones
+	Yield    []int   `json:"yield"`            // producer p yields the processor after every Yield[p]-th write (0: never)
+	NilEmpty bool    `json:"nil_empty"`        // empty batches are nil slices (as mcToTriangles returns) rather than empty ones
 	Sliver   int     `json:"sliver,omitempty"` // triangles only: every Sliver-th item is a needle (see sliverOf); 0: none
 }
 
